@@ -1441,3 +1441,103 @@ func init() {
 		return checkNamed(f)
 	})
 }
+
+// nestedSpreadCase: a call one of whose arguments is itself a call; `...` belongs to the call it is written in.
+type nestedSpreadCase struct {
+	Text string `json:"text"`
+	Want string `json:"want"` // the expected invocation log followed by the result
+}
+
+func checkNestedSpread(c nestedSpreadCase) string {
+	var log []string
+	note := func(name string, args ...interface{}) {
+		log = append(log, name+obs.Show(args))
+	}
+	data := map[string]interface{}{
+		"list": []interface{}{1, 2, 3},
+		"one":  []interface{}{7},
+		"wrap": func(xs ...interface{}) (interface{}, error) { note("wrap", xs...); return append([]interface{}{}, xs...), nil },
+		"count": func(xs ...interface{}) (int, error) {
+			note("count", xs...)
+			return len(xs), nil
+		},
+		"sum": func(xs ...int) (int, error) {
+			t := 0
+			var as []interface{}
+			for _, x := range xs {
+				t += x
+				as = append(as, x)
+			}
+			note("sum", as...)
+			return t, nil
+		},
+		"add2": func(a, b int) (int, error) { note("add2", a, b); return a + b, nil },
+		"pair": func(a interface{}, rest ...interface{}) (int, error) {
+			note("pair", append([]interface{}{a}, rest...)...)
+			return 1 + len(rest), nil
+		},
+	}
+	p := obs.Parse([]byte(c.Text))
+	if !p.OK() {
+		return "HARNESS: " + c.Text
+	}
+	r := formula.NewRunner()
+	r.SetThis(data)
+	out := obs.Eval(r, context.Background(), p.Src.Expression)
+	if out.Panic != nil {
+		return fmt.Sprintf("%s panicked: %v", c.Text, out.Panic)
+	}
+	got := strings.Join(log, " ") + " => " + obs.Show(out.Val)
+	if out.Err != nil {
+		got = strings.Join(log, " ") + " => error " + out.Err.Error()
+	}
+	if got != c.Want {
+		return fmt.Sprintf("%s with list = [1, 2, 3]: invocations and result %s, want %s (a spread belongs to the call it is written in)", c.Text, got, c.Want)
+	}
+	return ""
+}
+
+func init() {
+	h.RegisterReplay("c11-nested", func(raw json.RawMessage) string {
+		c, err := h.Decode[nestedSpreadCase](raw)
+		if err != nil {
+			return "bad replay: " + err.Error()
+		}
+		return checkNestedSpread(c)
+	})
+}
+
+// TestC11NestedSpread: calls inside the argument lists of calls, with and without `...` at either level.
+func TestC11NestedSpread(t *testing.T) {
+	run := h.Begin("C11", "nested-spread", "enumerated: 16 formulas in which a call with a spread argument is an argument (first, last, only, inside a list literal) of a call without one and the other way round, over recording host functions of variadic and fixed signatures; oracle: the invocation log (each function with the arguments it received, inner calls first) and the result; every case non-trivial")
+	defer run.End(t)
+	cases := []nestedSpreadCase{
+		{"count(wrap(list...))", "wrap[1,2,3] count[[1,2,3]] => 1"},
+		{"add2(1, sum(list...))", "sum[1,2,3] add2[1,6] => 7"},
+		{"add2(sum(list...), 10)", "sum[1,2,3] add2[6,10] => 16"},
+		{"count([sum(list...)])", "sum[1,2,3] count[[6]] => 1"},
+		{"count(wrap(list...), 5)", "wrap[1,2,3] count[[1,2,3],5] => 2"},
+		{"count(5, wrap(list...))", "wrap[1,2,3] count[5,[1,2,3]] => 2"},
+		{"wrap(count(list...))", "count[1,2,3] wrap[3] => [3]"},
+		{"count(wrap(list...)...)", "wrap[1,2,3] count[1,2,3] => 3"},
+		{"count(wrap(list)...)", "wrap[[1,2,3]] count[[1,2,3]] => 1"},
+		{"pair(sum(list...), wrap(one...))", "sum[1,2,3] wrap[7] pair[6,[7]] => 2"},
+		{"pair(sum(list...), wrap(one...)...)", "sum[1,2,3] wrap[7] pair[6,7] => 2"},
+		{"count(count(list...), count(one...))", "count[1,2,3] count[7] count[3,1] => 2"},
+		{"count(wrap(wrap(list...)))", "wrap[1,2,3] wrap[[1,2,3]] count[[[1,2,3]]] => 1"},
+		{"add2(sum(one...), sum(list...))", "sum[7] sum[1,2,3] add2[7,6] => 13"},
+		{"max(sum(list...), 2)", "sum[1,2,3] => 6"},
+		{"count(sum(list...), sum(one...))", "sum[1,2,3] sum[7] count[6,7] => 2"},
+	}
+	for i, c := range cases {
+		if !h.Mine(int64(i + 1)) {
+			continue
+		}
+		run.Count(true, "nested")
+		run.Sample("nested", c.Text)
+		if msg := checkNestedSpread(c); msg != "" {
+			run.Fail("c11-nested", c, msg)
+		}
+	}
+	run.Exhaustive()
+}
